@@ -304,7 +304,7 @@ class EObject(ENotifer, metaclass=Metasubinstance):
             yield from x.eAllContents()
 
     def eURIFragment(self):
-        if not self.eContainer():
+        if self.eContainer() is None:
             if not self.eResource or len(self.eResource.contents) == 1:
                 return '/'
             else:
@@ -319,7 +319,7 @@ class EObject(ENotifer, metaclass=Metasubinstance):
             return f'{parent.eURIFragment()}/@{name}'
 
     def eRoot(self):
-        if not self.eContainer():
+        if self.eContainer() is None:
             return self
         if not isinstance(self.eContainer(), EObject):
             return self.eContainer()
@@ -338,7 +338,7 @@ class EModelElement(EObject):
         super().__init__(**kwargs)
 
     def eURIFragment(self):
-        if not self.eContainer():
+        if self.eContainer() is None:
             if not self.eResource or len(self.eResource.contents) == 1:
                 return '#/'
             else:
